@@ -66,6 +66,7 @@ func multiPointCentroid(mp orb.MultiPoint) orb.Point {
 
 func multiLineStringCentroid(mls orb.MultiLineString) orb.Point {
 	point := orb.Point{}
+	mean := orb.Point{}
 	dist := 0.0
 
 	if len(mls) == 0 {
@@ -82,12 +83,13 @@ func multiLineStringCentroid(mls orb.MultiLineString) orb.Point {
 		dist += d
 		validCount++
 
-		if d == 0 {
-			d = 1.0
-		}
-
+		// weighted by length, a line without length does not count
+		// unless there are only such lines.
 		point[0] += c[0] * d
 		point[1] += c[1] * d
+
+		mean[0] += c[0]
+		mean[1] += c[1]
 	}
 
 	if validCount == 0 {
@@ -95,9 +97,9 @@ func multiLineStringCentroid(mls orb.MultiLineString) orb.Point {
 	}
 
 	if dist == math.Inf(1) || dist == 0.0 {
-		point[0] /= float64(validCount)
-		point[1] /= float64(validCount)
-		return point
+		mean[0] /= float64(validCount)
+		mean[1] /= float64(validCount)
+		return mean
 	}
 
 	point[0] /= dist
